@@ -147,6 +147,12 @@ PLANS = {
                            decode=True, max_ops=4, growth=4, embs=["deep(12)", "deep(18)", "deep(12):z", "deep(13)", "deep(24)"]),
                 thorough=dict(behs=80, depth=26, mode="crash", budget=2, nested=1, stride=1, fs=[8, 10, 12, 15, 19, 21], mc_crashes=2,
                               mutants=False, decode=True, growth=60, embs=["deep(12)", "deep(18)", "deep(12):z", "deep(24)", "deep(13)", "spread(6)"])),
+    # C19's crash leg: after a recovery that replays the WAL the reported occupancy must equal the number of
+    # occupied buckets the independent decoder counts on the recovered image (growth scripts: many pages per sync)
+    "C19": dict(quick=dict(behs=4, depth=18, mode="crash", budget=1, nested=0, stride=2, fs=[3, 25], mc_crashes=1, mutants=False,
+                           decode=True, max_ops=4, growth=3, embs=["top", "scatter", "deep(12)"]),
+                thorough=dict(behs=80, depth=26, mode="crash", budget=2, nested=1, stride=1, fs=[1, 3, 25, 60], mc_crashes=2,
+                              mutants=False, decode=True, growth=40, embs=["top", "scatter", "deep(12)", "spread(6)"])),
     "C14": dict(quick=dict(behs=6, depth=14, faults=90, fs=[1, 3], mc_crashes=1, mutants=False),
                 thorough=dict(behs=80, depth=24, faults=8000, fs=[1, 3, 25], mc_crashes=2, mutants=False)),
 }
@@ -281,6 +287,8 @@ def run_plan(pid, tier, seed, extra_cov=None, t0=None):
         dec = (rec.get("st") or {}).get("dec") if isinstance(rec.get("st"), dict) else None
         if rec.get("ev") == "Image" and dec and not (dec.get("ok") and dec.get("kvOk")):
             props.add("C16")         # a recovered image that does not decode to a well-formed structure
+        if rec.get("ev") == "Image" and dec and not (dec.get("occupiedOk", True) and dec.get("noLeak", True)):
+            props.add("C19")         # occupancy / free-space accounting of the recovering process is off
         fid = findings.match_api(prop, rej, sc)
         if fid:
             known.append(fid)
@@ -422,7 +430,7 @@ def finish(pid, tier, seed, t0, states, trans, mcs, mutant_res, violations, know
                             fault=sc.get("fault"), mode=sc.get("crash_mode"),
                             steps=[{k: v for k, v in s.items() if k != "cfg"} for s in sc["steps"]]))
     lvl = level or {"C03": "fault_enumeration", "C04": "model_checking", "C17": "model_checking", "C14": "fault_enumeration",
-                    "C16": "model_checking"}[pid]
+                    "C16": "model_checking", "C19": "model_checking"}[pid]
     cov = dict(states=states, transitions=trans, traces_validated_against_impl=accepted, samples=samples or [{}],
                evaluations=max(evaluations, 1), distinct_nontrivial=max(distinct, 2),
                rule="scripts are TLC simulations of ApiGen; every successful sync operation (commit flavours, overlay commits, "
